@@ -125,10 +125,11 @@ def judgeObs (panic : Bool) (cv sv : Option ObsView) (cDone sDone : Bool) (base 
     (alteredAccepted : Option String := none) : Option (String × String) :=
   if panic then some ("panic", "an endpoint panicked") else
   if cDone && sDone then
-    -- both completed although an authenticated item was altered in transit and never retransmitted:
-    -- what was accepted is not byte for byte what was sent
+    -- both completed although an authenticated item (handshake message, change-cipher-spec signal)
+    -- was altered in transit, or removed, and the sender never wrote another copy of it: what was
+    -- accepted is not byte for byte what was sent (`what` says which item and what happened to it)
     match alteredAccepted with
-    | some what => some ("altered-accepted", s!"both completed although {what} was altered in transit and not retransmitted")
+    | some what => some ("altered-accepted", s!"both completed although {what} in transit and no other copy of it was sent")
     | none =>
     match cv, sv with
     | some c, some s =>
